@@ -98,6 +98,9 @@ def load_known(prop_id):
 
 # ------------------------------------------------------------------ recording inside a worker
 
+_RECENT = collections.deque(maxlen=24)      # (leg name, case) evaluated last in THIS worker process, across shards and legs
+
+
 class Recorder:
     SAMPLE_CAP = 6
     MAX_TIMEOUTS = 3
@@ -123,6 +126,8 @@ class Recorder:
         # remaining cases of that algorithm are skipped (and counted), which keeps a check bounded when a change makes
         # an algorithm loop forever.
         key = case.get("alg", "-") if isinstance(case, dict) else "-"
+        before = list(_RECENT)
+        _RECENT.append((leg.name, case))
         if self.timeouts[key] >= self.MAX_TIMEOUTS:
             res = Result(inconclusive="skipped-after-timeouts")
         else:
@@ -158,14 +163,14 @@ class Recorder:
             size = case_size(case)
             old = self.failures.get(f.bucket)
             if old is None or size < old[0]:
-                self.failures[f.bucket] = (size, case, f.detail)
+                self.failures[f.bucket] = (size, case, f.detail, before)
         return res
 
     def export(self):
         return {
             "leg": self.leg.name, "evals": self.evals, "executions": self.executions,
             "nontrivial": self.nontrivial, "labels": dict(self.labels), "samples": self.samples,
-            "failures": {b: (c, d) for b, (_, c, d) in self.failures.items()},
+            "failures": {b: (c, d, ctx) for b, (_, c, d, ctx) in self.failures.items()},
             "known_hits": dict(self.known_hits), "known_examples": self.known_examples,
             "inconclusive": dict(self.inconclusive),
         }
@@ -374,10 +379,10 @@ def run_check(prop_id, legs, level="exploration", tier=None, assumptions=None, e
         for b, c in r["known_examples"].items():
             known_examples.setdefault(b, c)
         samples.extend(r["samples"])
-        for b, (case, detail) in r["failures"].items():
+        for b, (case, detail, context) in r["failures"].items():
             old = failures.get(b)
             if old is None or case_size(case) < case_size(old[1]):
-                failures[b] = (r["leg"], case, detail)
+                failures[b] = (r["leg"], case, detail, context)
 
     if errors:
         print(f"HARNESS-ERROR property={prop_id}: {len(errors)} shard(s) failed outside an evaluator", flush=True)
@@ -399,7 +404,7 @@ def run_check(prop_id, legs, level="exploration", tier=None, assumptions=None, e
     replay_dir = os.path.join(env.OUT_DIR, "replays")
     violations = []
     for bucket in sorted(failures):
-        leg_name, case, detail = failures[bucket]
+        leg_name, case, detail, context = failures[bucket]
         leg = legs_by_name[leg_name]
         small, d2, steps = minimise(leg, case, bucket, budget_s=(min(25.0, 75.0 / len(failures)) if tier == "quick"
                                                                  else min(60.0, 300.0 / len(failures))))
@@ -413,7 +418,10 @@ def run_check(prop_id, legs, level="exploration", tier=None, assumptions=None, e
             json.dump({"property": prop_id, "leg": leg_name, "bucket": bucket, "case": small, "detail": detail,
                        "original_case": case, "minimisation_steps": steps, "seed": env.seed(), "tier": tier},
                       f, indent=1, sort_keys=True, default=str)
-        violations.append((bucket, path, small, detail))
+        note = None
+        if len(violations) < 8:
+            path, note = confirm_in_fresh_process(prop_id, path, bucket, context, budget_s=45.0 if tier == "quick" else 120.0)
+        violations.append((bucket, path, small, detail, note))
 
     # evidence
     evaluations = sum(pl["evaluations"] for pl in per_leg.values())
@@ -442,7 +450,7 @@ def run_check(prop_id, legs, level="exploration", tier=None, assumptions=None, e
         "inconclusive": dict(inconclusive),
         "known_findings_confirmed": dict(known_hits),
         "fixed_defects_replayed": len(fixed),
-        "violating_buckets": [b for b, _, _, _ in violations],
+        "violating_buckets": [b for b, _, _, _, _ in violations],
         "exhaustive": False,
     }
     if extra_coverage:
@@ -458,9 +466,11 @@ def run_check(prop_id, legs, level="exploration", tier=None, assumptions=None, e
     for bucket, n in sorted(known_hits.items()):
         print(f"KNOWN-FINDING: property={prop_id} {bucket}: {known[bucket]} (reproduced on {n} generated cases, e.g. "
               f"{canon(known_examples[bucket])[:200]})", flush=True)
-    for bucket, path, small, detail in violations:
+    for bucket, path, small, detail, note in violations:
         print(f"VIOLATION property={prop_id} replay={path}", flush=True)
         print(f"  bucket={bucket} case={canon(small)[:400]}", flush=True)
+        if note:
+            print(f"  note={note}", flush=True)
         print(f"  detail={json.dumps(detail, default=str)[:600]}", flush=True)
     if inconclusive.get("timeout") or inconclusive.get("skipped-after-timeouts"):
         print(f"NOTE property={prop_id}: {inconclusive.get('timeout', 0)} case(s) exceeded their CPU budget and "
@@ -472,8 +482,56 @@ def run_check(prop_id, legs, level="exploration", tier=None, assumptions=None, e
     return 1 if violations else 0
 
 
+def _replay_exit(prop_id, path):
+    """Exit code of `check <ID> --replay path` in a brand-new interpreter (1 = the saved input fails there too)."""
+    import subprocess
+    check = os.path.join(os.path.dirname(os.path.dirname(os.path.abspath(__file__))), "check")
+    try:
+        return subprocess.run([sys.executable, check, prop_id, "--replay", path], capture_output=True, text=True, timeout=300).returncode
+    except subprocess.TimeoutExpired:
+        return 2
+
+
+def confirm_in_fresh_process(prop_id, path, bucket, context, budget_s):
+    """A replay file must reproduce from a fresh interpreter.  If the saved case alone does not fail there, the failure depended on state
+    that EARLIER cases left in the worker process (a cache, a memo, a counter that survives a call): then the cases evaluated before it
+    in that worker are put in front of it, the sequence is confirmed in a fresh interpreter, reduced (delta debugging, every trial a fresh
+    interpreter) and saved as the replay.  Returns (path of the replay to report, note or None)."""
+    if _replay_exit(prop_id, path) == 1:
+        return path, None
+    data = json.load(open(path))
+    seq = [{"leg": ln, "case": c} for ln, c in context]
+    seq_path = path[:-5] + "-sequence.json"
+
+    def fails(sequence):
+        with open(seq_path, "w") as f:
+            json.dump(dict(data, sequence=sequence), f, indent=1, sort_keys=True, default=str)
+        return _replay_exit(prop_id, seq_path) == 1
+    if not seq or not fails(seq):
+        if os.path.exists(seq_path):
+            os.remove(seq_path)
+        return path, ("observed once during the run but NOT reproduced in a fresh interpreter, neither alone nor after the "
+                      f"{len(seq)} cases that preceded it in its worker process")
+    deadline = time.time() + budget_s
+    chunk = max(1, len(seq) // 2)
+    while chunk >= 1 and time.time() < deadline:
+        i, shrunk = 0, False
+        while i < len(seq) and time.time() < deadline:
+            cand = seq[:i] + seq[i + chunk:]
+            if fails(cand):
+                seq, shrunk = cand, True
+            else:
+                i += chunk
+        if chunk == 1 and not shrunk:
+            break
+        chunk = chunk // 2 if not shrunk or chunk > 1 else 1
+    fails(seq)          # leave the reduced sequence in the file
+    return seq_path, (f"the case fails only after {len(seq)} earlier case(s) in the same process (state survives between calls); the replay "
+                      "file holds that sequence")
+
+
 def replay(prop_id, legs, path):
-    """Re-evaluate a saved case without Hypothesis."""
+    """Re-evaluate a saved case (or a saved sequence of cases ending in it) without Hypothesis."""
     data = json.load(open(path))
     legs = [l for l in legs if l is not None]
     leg = next((l for l in legs if l.name == data.get("leg")), None)
@@ -481,6 +539,13 @@ def replay(prop_id, legs, path):
         print(f"HARNESS-ERROR: replay file names leg {data.get('leg')} which property {prop_id} does not have")
         return 2
     known, _ = load_known(prop_id)
+    for step in data.get("sequence", []):
+        before = next((l for l in legs if l.name == step.get("leg")), None)
+        if before is not None:
+            try:
+                before.evaluate(step["case"])
+            except Exception:
+                pass
     res = leg.evaluate(data["case"])
     fails = [f for f in res.failures if f.bucket not in known]
     for f in res.failures:
